@@ -704,7 +704,7 @@ fn as_if_responses(pr: &PayProver, p: &Plan, c: &Scalar) -> PayResponses {
     }
 }
 
-fn run_plan(c: &mut Ctx, j: &PayJudge, rng: &mut (impl RngCore + CryptoRng), p: &Plan, cls: &str) {
+pub fn run_plan(c: &mut Ctx, j: &PayJudge, rng: &mut (impl RngCore + CryptoRng), p: &Plan, cls: &str) {
     let b = j.b;
     // the "claimed" messages for answer-as-if: what a true statement under the public values
     // would look like, keeping the forger's free slots
